@@ -70,13 +70,14 @@ Inductive fillid :=
 
 Record prims (T : Type) := mkPrims {
   fl : string -> option T;        (* float(tok); None = ValueError *)
+  tf : string -> option T;        (* datacard.to_float(tok): float(), else the Fortran spellings 5.0+0, 5.0d0, 6.40875-2 *)
   tz : T -> Z;                    (* int(x) *)
   rnd : T -> Z;                   (* round(x) *)
   pw : T -> T -> T;               (* x ** y on floats *)
   nf : string -> string;          (* Utils.normalize_float *)
   trs : Z -> option (list T)      (* get_mcnp_transforms(parser).get(n) *)
 }.
-Arguments fl {T}. Arguments tz {T}. Arguments rnd {T}. Arguments pw {T}. Arguments nf {T}. Arguments trs {T}.
+Arguments fl {T}. Arguments tf {T}. Arguments tz {T}. Arguments rnd {T}. Arguments pw {T}. Arguments nf {T}. Arguments trs {T}.
 
 Section Model.
   Context {T : Type} (Sc : Scalar T) (P : prims T).
@@ -91,7 +92,7 @@ Section Model.
 
   (* linspace(result[-1], upper_token, n_vals_token) *)
   Definition linspace (lower : option T) (upper_tok body : string) : res (list (option T)) :=
-    do upper <- of_opt EValue (fl P upper_tok);
+    do upper <- of_opt EValue (tf P upper_tok);
     do lo <- of_opt EType lower;
     do n <- count_tok body;
     if (n + 1 =? 0)%Z then Err EZeroDiv else
@@ -151,7 +152,7 @@ Section Model.
         end
       else if char_is "m"%char last then
         if is_empty body then Err EValue else
-        do f <- of_opt EValue (fl P body);
+        do f <- of_opt EValue (tf P body);
         match acc with
         | [] => Err EIndex
         | None :: _ => Err EType
@@ -170,7 +171,7 @@ Section Model.
             end
         end
       else
-        do v <- of_opt EValue (fl P tok); Ok (Some v :: acc, O)
+        do v <- of_opt EValue (tf P tok); Ok (Some v :: acc, O)
     end.
 
   Definition reached (expected : option Z) (acc : list (option T)) : bool :=
@@ -282,7 +283,7 @@ Section Model.
   Fixpoint floats_of (toks : list string) : res (list T) :=
     match toks with
     | [] => Ok []
-    | t :: r => do v <- of_opt EValue (fl P t); do l <- floats_of r; Ok (v :: l)
+    | t :: r => do v <- of_opt EValue (tf P t); do l <- floats_of r; Ok (v :: l)
     end.
 
   (* parse_ranges *)
@@ -305,10 +306,10 @@ Section Model.
 
   (* the numeric tokens that follow FILL's universe specification, or TRCL
      (parse_fill_kw and parse_trcl_kw treat them in the same way) *)
-  Definition fill_params (star : bool) (ptoks : list string) : res (trparams T) :=
+  Definition fill_params (trcl star : bool) (ptoks : list string) : res (trparams T) :=
     do vals <- floats_of ptoks;
     match vals with
-    | [] => Ok (if star then TPNormCos [] else TPVals [])   (* '*fill=n' alone: normalize_transform([]) *)
+    | [] => Ok (if trcl && star then TPNormCos [] else TPVals [])   (* '*trcl' alone: normalize_transform([]); '*fill=n' alone: () *)
     | [x] => do l <- of_opt EKey (trs P (tz P x)); Ok (TPVals (firstn 12 l))
     | [a; b; c] => Ok (TPVals ([a; b; c] ++ identity9))
     | _ =>
@@ -343,19 +344,19 @@ Section Model.
           let after' := if Nat.eqb consumed 0 then [] else skipn consumed after in
           let used := (List.length rtoks + (if Nat.eqb consumed 0 then List.length after else consumed))%nat in
           let ptoks := take_numeric after' in
-          do fp <- fill_params star ptoks;
+          do fp <- fill_params false star ptoks;
           Ok (Some bounds, FUList (map (option_map (rnd P)) vals), fp, (used + List.length ptoks)%nat)
         else
           do x <- of_opt EValue (fl P first);
           let ptoks := take_numeric (tl rest) in
-          do fp <- fill_params star ptoks;
+          do fp <- fill_params false star ptoks;
           Ok (None, FUInt (tz P x), fp, (1 + List.length ptoks)%nat)
     end.
 
   (* parse_trcl_kw *)
   Definition parse_trcl (star : bool) (rest : list string) : res (trparams T * nat) :=
     let ptoks := take_numeric rest in
-    do fp <- fill_params star ptoks;
+    do fp <- fill_params true star ptoks;
     Ok (fp, List.length ptoks).
 
   (* parse_lat_kw *)
